@@ -348,3 +348,45 @@ func TestManagedTimers(t *testing.T) {
 		}
 	})
 }
+
+func TestRecvHelpers(t *testing.T) {
+	prog := func() {
+		ch := make(chan int, 1)
+		done := make(chan struct{})
+		var wg WaitGroup
+		wg.Add(2)
+		got, closed := 0, false
+		Go(func() {
+			defer wg.Done()
+			got = Recv[int](ch) + Recv[int](ch)
+			_, ok := Recv2[struct{}](done)
+			closed = !ok
+		})
+		Go(func() {
+			defer wg.Done()
+			for i := 1; i <= 2; i++ {
+				sel := NewSelect(1)
+			L:
+				switch sel.Next() {
+				case 0:
+					select {
+					case ch <- i:
+						sel.Hit()
+					default:
+						goto L
+					}
+				}
+			}
+			Close(done)
+		})
+		wg.Wait()
+		if got != 3 || !closed {
+			panic("Recv helpers misbehaved")
+		}
+	}
+	allSingle(t, prog, func(o Outcome, at, c int) {
+		if o.Deadlock || o.Panic != "" || o.TimedOut {
+			t.Fatalf("receive helpers: %+v at %d/%d\n%v", o, at, c, o.Trace)
+		}
+	})
+}
